@@ -7,6 +7,11 @@ use std::cmp::min;
 pub struct Regex {
     regex: regex::Regex,
     fixed_prefix: String,
+    /// Number of characters of the fixed prefix as written in the pattern
+    fixed_prefix_len: usize,
+    /// Maximum number of characters a match can have after the fixed prefix,
+    /// `None` if unbounded or unknown
+    max_suffix_len: Option<usize>,
     case_insensitive: bool,
 }
 
@@ -16,14 +21,18 @@ impl Regex {
         let regex = regex::RegexBuilder::new(re)
             .case_insensitive(case_insensitive)
             .build()?;
+        let (fixed_prefix, max_suffix_len) = Self::get_fixed_prefix(re);
+        let fixed_prefix_len = fixed_prefix.chars().count();
         let fixed_prefix = if case_insensitive {
-            Self::get_fixed_prefix(re).to_lowercase()
+            fixed_prefix.to_lowercase()
         } else {
-            Self::get_fixed_prefix(re)
+            fixed_prefix
         };
         Ok(Regex {
             regex,
             fixed_prefix,
+            fixed_prefix_len,
+            max_suffix_len,
             case_insensitive,
         })
     }
@@ -39,52 +48,57 @@ impl Regex {
     /// in the fixed prefix of the regex, where fixed prefix are all characters up to the
     /// first regex wildcard.
     pub fn is_partial_match(&self, s: &str) -> bool {
-        let len = min(s.len(), self.fixed_prefix.len());
-        let truncated: String = s.chars().take(len).collect();
-        let pattern = if self.case_insensitive {
-            truncated.to_lowercase()
+        if let Some(max_suffix_len) = self.max_suffix_len {
+            if s.chars().count() > self.fixed_prefix_len + max_suffix_len {
+                return false;
+            }
+        }
+        let lowercase;
+        let s = if self.case_insensitive {
+            lowercase = s.to_lowercase();
+            lowercase.as_str()
         } else {
-            truncated
+            s
         };
-        self.fixed_prefix.starts_with(&pattern)
+        // the shorter of the two must be a prefix of the other, compared by characters
+        self.fixed_prefix.chars().zip(s.chars()).all(|(a, b)| a == b)
     }
 
     /// Returns the initial fragment of the regex string that always matches
     /// a fixed string. That fragment does not contain any wildcard characters (or all are escaped).
-    fn get_fixed_prefix(s: &str) -> String {
-        let mut escape = false;
+    /// The second value is the maximum number of characters that can follow the fixed fragment
+    /// in a matching string, if the rest of the pattern is known to be that limited.
+    fn get_fixed_prefix(s: &str) -> (String, Option<usize>) {
         let mut result = String::new();
-        let magic_chars = ['.', '^', '$', '(', ')', '{', '}', '[', ']', '|', '.', '+'];
-
-        for (i, c) in s.chars().enumerate() {
-            if c == '^' && i == 0 {
-                continue;
-            }
-            if magic_chars.contains(&c) && !escape {
-                break;
-            }
-            // these may make the previous character optional,
-            // so we erase the last added one
-            if ['?', '*'].contains(&c) && !escape {
-                result = result.chars().take(result.len() - 1).collect();
-                break;
-            }
-            // escaped alphabetic character means a character class,
-            // so let's stop here as well
-            if c.is_ascii_alphabetic() && escape {
-                break;
-            }
-
-            // we\re not adding the escape char to the output, because the output is not a regexp
-            if c == '\\' {
-                escape = true;
-                continue;
-            }
-
-            result.push(c);
+        let mut chars = s.chars().peekable();
+        if chars.peek() == Some(&'^') {
+            chars.next();
         }
-
-        result
+        while let Some(c) = chars.next() {
+            match c {
+                // we're not adding the escape char to the output, because the output is not a regexp
+                '\\' => match chars.next() {
+                    // escaped alphanumeric character means a character class or an assertion,
+                    // so let's stop here
+                    Some(escaped) if !escaped.is_ascii_alphanumeric() => result.push(escaped),
+                    _ => return (result, None),
+                },
+                // a top-level alternative: nothing is fixed
+                '|' => return (String::new(), None),
+                // these may make the previous character optional,
+                // so we erase the last added one
+                '?' | '*' | '{' => {
+                    result.pop();
+                    let rest: String = chars.collect();
+                    let at_most_one_more = c == '?' && (rest.is_empty() || rest == "$");
+                    return (result, if at_most_one_more { Some(1) } else { None });
+                }
+                '$' if chars.peek().is_none() => return (result, Some(0)),
+                '.' | '^' | '$' | '(' | ')' | '}' | '[' | ']' | '+' => return (result, None),
+                c => result.push(c),
+            }
+        }
+        (result, Some(0))
     }
 }
 
